@@ -25,7 +25,7 @@ def run(tier: str, seed: int):
                + list(F.fam_e3(list(F.fam_types3()) + list(F.fam_faults(2, 3, max_faults=1, reqs='sinks', cofs=(True,), kinds=('raise',), pre=True, bust=(True,))) + list(F.fam_corrupt(2, 3)),
                                workers=(2,), liveness=False))
                + list(F.fam_e3(F.fam_inherit(2), workers=(2,), liveness=False))     # derived task types holding dependencies in the parameter they add
-               + list(F.fam_e3([c for c in F.fam_shapes(2, 2, pre=False) if len(c.requested) == c.spec.n], workers=(1, 2), liveness=False, prelude=True))     # an earlier call through the same backend object was aborted by a failure
+               + list(F.fam_e3([c for c in F.fam_shapes(2, 2, pre=False) if len(c.requested) == c.spec.n], workers=(1, 2), liveness=False, prelude=True)) + list(F.fam_e3([c for c in F.fam_shapes(3, 3, pre=False) if len(c.requested) == c.spec.n and c.spec.deps[2]], workers=(2,), liveness=False, prelude=True))     # an earlier call through the same backend object was aborted by a failure
                # a result that reaches the queue just as its worker is seen dead
                + list(F.fam_e3(F.fam_shapes(2, 3, pre=False), workers=(2,), backends=('fork',))))
     else:
